@@ -133,4 +133,1016 @@ theorem okP_parseRepeat (re : Bytes) (fl : Flags) (ix : Nat) :
   refine OkP.ite (fun _ => trivial) (fun _ => ?_)
   simp only [OkP_ok]; omega
 
+/-! ## Leaves: no group inside, counter and names untouched -/
+
+/-- outcome of a function that reads a leaf at `ix`: not to the left, no group inside, the group
+    counter and the name table untouched -/
+def Leaf (st : PState) (ix : Nat) (r : Nat × Expr × PState) : Prop :=
+  ix ≤ r.1 ∧ groupCount r.2.1 = 0 ∧ r.2.2.currGroup = st.currGroup ∧
+    r.2.2.namedGroups = st.namedGroups
+
+theorem Leaf.mono {st : PState} {ix ix' : Nat} {r : Nat × Expr × PState} (h : Leaf st ix' r)
+    (hle : ix ≤ ix') : Leaf st ix r :=
+  ⟨Nat.le_trans hle h.1, h.2⟩
+
+theorem groupCount_mk (k : RefKind) (g : Nat) : groupCount (k.mk g) = 0 := by
+  cases k <;> simp [RefKind.mk, groupCount]
+
+theorem okP_parseNumberedBackref (re : Bytes) (st : PState) (ix : Nat) (k : RefKind) :
+    OkP (Leaf st ix) (parseNumberedBackref re st ix k) := by
+  unfold parseNumberedBackref
+  refine OkP.bind (okP_parseDecimal re ix) (fun r hr => ?_)
+  cases r with
+  | none => trivial
+  | some q =>
+    obtain ⟨e, g⟩ := q
+    have := hr _ _ rfl
+    simp only
+    refine OkP.ite (fun _ => ?_) (fun _ => trivial)
+    exact ⟨by simp only; omega, groupCount_mk k g, rfl, rfl⟩
+
+theorem okP_parseNamedBackref (isAlnum : Char → Bool) (re : Bytes) (st : PState) (ix : Nat)
+    (open_ close : List Nat) (allowRelative : Bool) (k : RefKind) :
+    OkP (Leaf st ix) (parseNamedBackref isAlnum re st ix open_ close allowRelative k) := by
+  unfold parseNamedBackref
+  refine OkP.bind OkP.trivial (fun _ _ => ?_)
+  refine OkP.bind OkP.trivial (fun r _ => ?_)
+  cases r with
+  | none => trivial
+  | some q =>
+    obtain ⟨a, b, skip⟩ := q
+    simp only
+    split
+    · exact ⟨by simp only; omega, groupCount_mk k _, rfl, rfl⟩
+    · trivial
+
+theorem okP_hexBraceLoop (re : Bytes) (ix starthex : Nat) : ∀ (f endhex : Nat),
+    OkP (fun e => endhex ≤ e) (hexBraceLoop f re ix starthex endhex) := by
+  intro f
+  induction f with
+  | zero => intro endhex; trivial
+  | succ f ih =>
+    intro endhex
+    unfold hexBraceLoop
+    refine OkP.ite (fun _ => trivial) (fun _ => ?_)
+    split
+    · trivial
+    · refine OkP.ite (fun _ => by simp) (fun _ => ?_)
+      refine OkP.ite (fun _ => ?_) (fun _ => trivial)
+      exact (ih (endhex + 1)).mono fun e he => by omega
+
+theorem okP_parseHex (re : Bytes) (fl : Flags) (ix digits : Nat) :
+    OkP (fun r => ix ≤ r.1 ∧ groupCount r.2 = 0) (parseHex re fl ix digits) := by
+  unfold parseHex
+  refine OkP.ite (fun _ => trivial) (fun _ => ?_)
+  refine OkP.bind OkP.trivial (fun b _ => ?_)
+  refine OkP.bind (P := fun p : Nat × List Nat => ix ≤ p.1) ?_ (fun p hp => ?_)
+  · refine OkP.ite (fun _ => ?_) (fun _ => ?_)
+    · refine OkP.bind OkP.trivial (fun s _ => ?_)
+      simp only [OkP_pure]; omega
+    refine OkP.ite (fun _ => ?_) (fun _ => trivial)
+    refine OkP.bind (okP_hexBraceLoop re ix (ix + 1) 16 (ix + 1)) (fun e he => ?_)
+    refine OkP.bind OkP.trivial (fun s _ => ?_)
+    simp only [OkP_pure]; omega
+  split
+  · trivial
+  · refine OkP.ite (fun _ => ?_) (fun _ => trivial)
+    exact ⟨hp, by simp [groupCount]⟩
+
+theorem okP_uniNameLoop (re : Bytes) (ix : Nat) : ∀ (f end_ : Nat),
+    OkP (fun e => end_ ≤ e) (uniNameLoop f re ix end_) := by
+  intro f
+  induction f with
+  | zero => intro end_; trivial
+  | succ f ih =>
+    intro end_
+    unfold uniNameLoop
+    refine OkP.ite (fun _ => trivial) (fun _ => ?_)
+    split
+    · trivial
+    · refine OkP.ite (fun _ => by simp) (fun _ => ?_)
+      exact (ih _).mono fun e he => by omega
+
+/-- `parse_escape` reads a leaf -/
+theorem okP_parseEscape (isAlnum : Char → Bool) (re : Bytes) (st : PState) (ix : Nat)
+    (inClass : Bool) : OkP (Leaf st ix) (parseEscape isAlnum re st ix inClass) := by
+  unfold parseEscape
+  split
+  · trivial
+  rename_i b hb
+  have hpos := codepointLen_pos b
+  simp only
+  have one : ∀ (e : Expr), groupCount e = 0 →
+      OkP (Leaf st ix) (.ok (ix + 1 + codepointLen b, e, st)) :=
+    fun e he => ⟨by simp only; omega, he, rfl, rfl⟩
+  have hexc : ∀ n, OkP (Leaf st ix) (do
+      let (e, x) ← parseHex re st.flags (ix + 1 + codepointLen b) n
+      Res.ok (e, x, st)) := by
+    intro n
+    refine OkP.bind (okP_parseHex re st.flags _ n) (fun r hr => ?_)
+    obtain ⟨e, x⟩ := r
+    exact ⟨by simp only at hr ⊢; omega, hr.2, rfl, rfl⟩
+  refine OkP.ite (fun _ => (okP_parseNumberedBackref re st (ix + 1) .backref).mono
+    fun r hr => hr.mono (by omega)) (fun _ => ?_)
+  refine OkP.ite (fun _ => ?_) (fun _ => ?_)
+  · refine OkP.ite (fun _ => ?_) (fun _ => ?_)
+    · exact (okP_parseNamedBackref ..).mono fun r hr => hr.mono (by omega)
+    · exact (okP_parseNamedBackref ..).mono fun r hr => hr.mono (by omega)
+  refine OkP.ite (fun _ => one _ (by simp [groupCount])) (fun _ => ?_)
+  refine OkP.ite (fun _ => one _ (by simp [groupCount])) (fun _ => ?_)
+  refine OkP.ite (fun _ => one _ (by simp [groupCount])) (fun _ => ?_)
+  refine OkP.ite (fun _ => ?_) (fun _ => ?_)
+  · refine OkP.ite (fun _ => ?_) (fun _ => one _ (by simp [groupCount]))
+    exact OkP.bind OkP.trivial (fun _ _ => trivial)
+  refine OkP.ite (fun _ => ?_) (fun _ => ?_)
+  · refine OkP.ite (fun _ => ?_) (fun _ => one _ (by simp [groupCount]))
+    exact OkP.bind OkP.trivial (fun _ _ => trivial)
+  refine OkP.ite (fun _ => one _ (by simp [groupCount])) (fun _ => ?_)
+  refine OkP.ite (fun _ => one _ (by simp [groupCount])) (fun _ => ?_)
+  refine OkP.ite (fun _ => ?_) (fun _ => ?_)
+  · exact OkP.bind OkP.trivial (fun _ _ => one _ (by simp [groupCount]))
+  refine OkP.ite (fun _ => one _ (by simp [groupCount])) (fun _ => ?_)
+  refine OkP.ite (fun _ => hexc 2) (fun _ => ?_)
+  refine OkP.ite (fun _ => hexc 4) (fun _ => ?_)
+  refine OkP.ite (fun _ => hexc 8) (fun _ => ?_)
+  refine OkP.ite (fun _ => ?_) (fun _ => ?_)
+  · refine OkP.bind OkP.trivial (fun b2 _ => ?_)
+    have hpos2 := codepointLen_pos b2
+    refine OkP.bind (P := fun e => ix + 1 + codepointLen b ≤ e) ?_ (fun e he => ?_)
+    · refine OkP.ite (fun _ => ?_) (fun _ => by simp only [OkP_pure]; omega)
+      exact (okP_uniNameLoop re ix _ _).mono fun e he => by omega
+    refine OkP.bind OkP.trivial (fun s _ => ?_)
+    exact ⟨by simp only; omega, by simp [groupCount], rfl, rfl⟩
+  refine OkP.ite (fun _ => one _ (by simp [groupCount])) (fun _ => ?_)
+  refine OkP.ite (fun _ => one _ (by simp [groupCount])) (fun _ => ?_)
+  refine OkP.ite (fun _ => ?_) (fun _ => ?_)
+  · refine OkP.ite (fun _ => trivial) (fun _ => ?_)
+    refine OkP.bind OkP.trivial (fun b2 _ => ?_)
+    refine OkP.ite (fun _ => (okP_parseNumberedBackref ..).mono fun r hr => hr.mono (by omega))
+      (fun _ => ?_)
+    refine OkP.ite (fun _ => ?_) (fun _ => ?_)
+    · exact (okP_parseNamedBackref ..).mono fun r hr => hr.mono (by omega)
+    · exact (okP_parseNamedBackref ..).mono fun r hr => hr.mono (by omega)
+  refine OkP.ite (fun _ => one _ (by simp [groupCount, makeLiteral])) (fun _ => ?_)
+  refine OkP.ite (fun _ => one _ (by simp [groupCount, makeLiteral])) (fun _ => ?_)
+  refine OkP.ite (fun _ => one _ (by simp [groupCount, makeLiteral])) (fun _ => ?_)
+  refine OkP.ite (fun _ => one _ (by simp [groupCount, makeLiteral])) (fun _ => ?_)
+  refine OkP.ite (fun _ => one _ (by simp [groupCount, makeLiteral])) (fun _ => ?_)
+  refine OkP.ite (fun _ => one _ (by simp [groupCount, makeLiteral])) (fun _ => ?_)
+  refine OkP.ite (fun _ => one _ (by simp [groupCount, makeLiteral])) (fun _ => ?_)
+  refine OkP.ite (fun _ => one _ (by simp [groupCount, makeLiteral])) (fun _ => ?_)
+  refine OkP.ite (fun _ => one _ (by simp [groupCount, makeLiteral])) (fun _ => ?_)
+  refine OkP.bind OkP.trivial (fun s _ => ?_)
+  refine OkP.ite (fun _ => trivial) (fun _ => one _ (by simp [groupCount, makeLiteral]))
+
+/-- the loop of `parse_class`: to the right, counter and names untouched -/
+theorem okP_classLoop (isAlnum : Char → Bool) (re : Bytes) : ∀ (f : Nat) (st : PState) (ix : Nat)
+    (nest : Int) (rcls : List Char),
+    OkP (fun r => ix ≤ r.1 ∧ r.2.2.currGroup = st.currGroup ∧ r.2.2.namedGroups = st.namedGroups)
+      (classLoop isAlnum f re st ix nest rcls) := by
+  intro f
+  induction f with
+  | zero => intro st ix nest rcls; trivial
+  | succ f ih =>
+    intro st ix nest rcls
+    unfold classLoop
+    refine OkP.ite (fun _ => trivial) (fun _ => ?_)
+    split
+    · trivial
+    rename_i b hb
+    refine OkP.ite (fun _ => ?_) (fun _ => ?_)
+    · have hesc := okP_parseEscape isAlnum re st ix true
+      split
+      · rename_i end_ e st' heq
+        rw [heq] at hesc
+        obtain ⟨h1, _, h3, h4⟩ := hesc
+        simp only at h1 h3 h4
+        split
+        · refine OkP.ite (fun _ => trivial) (fun _ => ?_)
+          exact (ih st' end_ _ _).mono fun r hr => ⟨by omega, by rw [hr.2.1, h3], by rw [hr.2.2, h4]⟩
+        · exact (ih st' end_ _ _).mono fun r hr => ⟨by omega, by rw [hr.2.1, h3], by rw [hr.2.2, h4]⟩
+        · trivial
+      all_goals trivial
+    refine OkP.ite (fun _ => ?_) (fun _ => ?_)
+    · exact (ih st (ix + 1) _ _).mono fun r hr => ⟨by omega, hr.2⟩
+    refine OkP.ite (fun _ => ?_) (fun _ => ?_)
+    · refine OkP.ite (fun _ => ⟨Nat.le_refl _, rfl, rfl⟩) (fun _ => ?_)
+      exact (ih st (ix + 1) _ _).mono fun r hr => ⟨by omega, hr.2⟩
+    · have hpos := codepointLen_pos b
+      simp only
+      split
+      · exact (ih st _ _ _).mono fun r hr => ⟨by omega, hr.2⟩
+      all_goals trivial
+
+/-- `parse_class` reads a leaf -/
+theorem okP_parseClass (isAlnum : Char → Bool) (re : Bytes) (st : PState) (ix : Nat) :
+    OkP (Leaf st ix) (parseClass isAlnum re st ix) := by
+  unfold parseClass
+  simp only
+  refine OkP.bind (okP_classLoop isAlnum re _ st _ _ _) (fun r hr => ?_)
+  obtain ⟨ix', rcls, st'⟩ := r
+  obtain ⟨h1, h2, h3⟩ := hr
+  simp only at h1 h2 h3 ⊢
+  refine ⟨?_, by simp [groupCount], h2, h3⟩
+  simp only
+  have : ix + 1 ≤ ix' := by
+    refine Nat.le_trans ?_ h1
+    split <;> split <;> simp only <;> omega
+  omega
+
+/-- the letter loop of `parse_flags` stops to the right -/
+theorem okP_flagsLoop (re : Bytes) (start : Nat) : ∀ (f : Nat) (fl : Flags) (ix : Nat) (neg : Bool),
+    OkP (fun r => match r.1 with | .close i => ix ≤ i | .colon i => ix ≤ i)
+      (flagsLoop f re fl start ix neg) := by
+  intro f
+  induction f with
+  | zero => intro fl ix neg; trivial
+  | succ f ih =>
+    intro fl ix neg
+    unfold flagsLoop
+    have hws := okP_optWs re fl ix
+    split
+    · rename_i ix1 heq
+      rw [heq] at hws
+      simp only [OkP_ok] at hws
+      refine OkP.ite (fun _ => trivial) (fun _ => ?_)
+      split
+      · trivial
+      have next : ∀ fl' neg', OkP (fun r => match r.1 with | .close i => ix ≤ i | .colon i => ix ≤ i)
+          (flagsLoop f re fl' start (ix1 + 1) neg') := fun fl' neg' =>
+        (ih fl' (ix1 + 1) neg').mono fun r hr => by
+          cases hr1 : r.1 <;> rw [hr1] at hr <;> simp only at hr ⊢ <;> omega
+      have unk : ∀ i, OkP (fun r : FlagsEnd × Flags => match r.1 with | .close i => ix ≤ i | .colon i => ix ≤ i)
+          (match unknownFlag re start i with
+            | .ok e => .err e start
+            | .err k p => .err k p | .cerr => .cerr | .panic s => .panic s | .outOfFuel => .outOfFuel) := by
+        intro i; split <;> trivial
+      refine OkP.ite (fun _ => next _ _) (fun _ => ?_)
+      refine OkP.ite (fun _ => OkP.ite (fun _ => trivial) (fun _ => next _ _)) (fun _ => ?_)
+      refine OkP.ite (fun _ => OkP.ite (fun _ => unk _) (fun _ => next _ _)) (fun _ => ?_)
+      refine OkP.ite (fun _ => OkP.ite (fun _ => unk _) (fun _ => hws)) (fun _ => ?_)
+      refine OkP.ite (fun _ => OkP.ite (fun _ => unk _) (fun _ => hws)) (fun _ => unk _)
+    all_goals trivial
+
+/-- `parse_id`: the consumed length is more than the two delimiters (the name is not empty) -/
+theorem okP_parseId (isAlnum : Char → Bool) (re : Bytes) (base : Nat) (open_ close : List Nat)
+    (allowRelative : Bool) :
+    OkP (fun r => ∀ a b skip, r = some (a, b, skip) → open_.length + close.length < skip)
+      (parseId isAlnum re base open_ close allowRelative) := by
+  unfold parseId
+  refine OkP.ite (fun _ => trivial) (fun _ => ?_)
+  refine OkP.ite (fun _ => by simp) (fun _ => ?_)
+  refine OkP.bind OkP.trivial (fun _ _ => ?_)
+  refine OkP.bind OkP.trivial (fun afterId _ => ?_)
+  refine OkP.bind OkP.trivial (fun idLen _ => ?_)
+  split
+  · simp
+  · simp
+  · rename_i l hl0
+    refine OkP.ite (fun _ => trivial) (fun _ => ?_)
+    simp only [OkP_ok, Option.some.injEq, Prod.mk.injEq]
+    rintro a b skip ⟨rfl, rfl, rfl⟩
+    have : l ≠ 0 := fun h => hl0 (by rw [h])
+    omega
+
+/-! ## The name table as a function of the groups' names, in opening order -/
+
+abbrev Name := List Nat
+abbrev Names := List (List Nat × Nat)
+
+/-- the table after the groups `base+1, base+2, …` have been opened, the `i`-th of them carrying
+    the name `ann[i]` (or none): each named group does `named_groups.insert(name, curr_group)` -/
+def bindNames (m : Names) (base : Nat) : List (Option Name) → Names
+  | [] => m
+  | none :: as => bindNames m (base + 1) as
+  | some nm :: as => bindNames (namedInsert m nm (base + 1)) (base + 1) as
+
+theorem bindNames_append (a1 : List (Option Name)) : ∀ (m : Names) (base : Nat) (a2 : List (Option Name)),
+    bindNames m base (a1 ++ a2) = bindNames (bindNames m base a1) (base + a1.length) a2 := by
+  induction a1 with
+  | nil => intro m base a2; rfl
+  | cons a as ih =>
+    intro m base a2
+    cases a with
+    | none =>
+      simp only [List.cons_append, bindNames, List.length_cons]
+      rw [ih]; congr 1; omega
+    | some nm =>
+      simp only [List.cons_append, bindNames, List.length_cons]
+      rw [ih]; congr 1; omega
+
+/-- the group counter goes from `c` to `c' = c + n` and the table from `m` to `m'` by opening `n`
+    groups in order -/
+def Thr (c : Nat) (m : Names) (c' : Nat) (m' : Names) (n : Nat) : Prop :=
+  c' = c + n ∧ ∃ ann : List (Option Name), ann.length = n ∧ m' = bindNames m c ann
+
+theorem Thr.refl (c : Nat) (m : Names) : Thr c m c m 0 := ⟨rfl, [], rfl, rfl⟩
+
+theorem Thr.trans {c c1 c2 : Nat} {m m1 m2 : Names} {n1 n2 : Nat} (h1 : Thr c m c1 m1 n1)
+    (h2 : Thr c1 m1 c2 m2 n2) : Thr c m c2 m2 (n1 + n2) := by
+  obtain ⟨e1, a1, l1, b1⟩ := h1
+  obtain ⟨e2, a2, l2, b2⟩ := h2
+  refine ⟨by omega, a1 ++ a2, by simp [l1, l2], ?_⟩
+  rw [bindNames_append, ← b1, l1, ← e1]; exact b2
+
+theorem Thr.cast {c c' : Nat} {m m' : Names} {n n' : Nat} (h : Thr c m c' m' n) (hn : n = n') :
+    Thr c m c' m' n' := hn ▸ h
+
+/-- opening an unnamed capture group -/
+theorem Thr.group {c c' : Nat} {m m' : Names} {n : Nat} (h : Thr (c + 1) m c' m' n) :
+    Thr c m c' m' (n + 1) := by
+  obtain ⟨e, a, l, b⟩ := h
+  exact ⟨by omega, none :: a, by simp [l], by simpa [bindNames] using b⟩
+
+/-- opening a named capture group -/
+theorem Thr.named {c c' : Nat} {m m' : Names} {n : Nat} (nm : Name)
+    (h : Thr (c + 1) (namedInsert m nm (c + 1)) c' m' n) : Thr c m c' m' (n + 1) := by
+  obtain ⟨e, a, l, b⟩ := h
+  exact ⟨by omega, some nm :: a, by simp [l], by simpa [bindNames] using b⟩
+
+/-- outcome of a descent function started at `ix` in state `st`: not to the left — strictly to the
+    right when a group was opened —, the counter has advanced by the number of groups of the tree,
+    the table has been extended by their names in opening order -/
+def Inv (st : PState) (ix : Nat) (r : Nat × Expr × PState) : Prop :=
+  ix ≤ r.1 ∧ (0 < groupCount r.2.1 → ix < r.1) ∧
+    Thr st.currGroup st.namedGroups r.2.2.currGroup r.2.2.namedGroups (groupCount r.2.1)
+
+/-- the same for the two loops -/
+def InvL (st : PState) (ix : Nat) (r : Nat × List Expr × PState) : Prop :=
+  ix ≤ r.1 ∧ (0 < groupCountList r.2.1 → ix < r.1) ∧
+    Thr st.currGroup st.namedGroups r.2.2.currGroup r.2.2.namedGroups (groupCountList r.2.1)
+
+theorem Leaf.inv {st : PState} {ix : Nat} {r : Nat × Expr × PState} (h : Leaf st ix r) :
+    Inv st ix r := by
+  obtain ⟨h1, h2, h3, h4⟩ := h
+  refine ⟨h1, by omega, ?_⟩
+  rw [h2, h3, h4]; exact Thr.refl _ _
+
+theorem Inv.mono {st : PState} {ix ix' : Nat} {r : Nat × Expr × PState} (h : Inv st ix' r)
+    (hle : ix ≤ ix') : Inv st ix r :=
+  ⟨Nat.le_trans hle h.1, fun hp => Nat.lt_of_le_of_lt hle (h.2.1 hp), h.2.2⟩
+
+/-- same groups, further right, same counter and table -/
+theorem Inv.reshape {st st1 st' : PState} {ix ix1 ix' : Nat} {child e' : Expr}
+    (h : Inv st ix (ix1, child, st1)) (hle : ix1 ≤ ix') (hc : groupCount e' = groupCount child)
+    (hcg : st'.currGroup = st1.currGroup) (hng : st'.namedGroups = st1.namedGroups) :
+    Inv st ix (ix', e', st') := by
+  obtain ⟨h1, h2, h3⟩ := h
+  simp only at h1 h2 h3
+  refine ⟨by simp only; omega, ?_, ?_⟩
+  · simp only; rw [hc]; intro hp; have := h2 hp; omega
+  · simp only; rw [hc, hcg, hng]; exact h3
+
+theorem groupCount_of_isEmpty {e : Expr} (h : e.isEmpty = true) : groupCount e = 0 := by
+  cases e <;> simp [Expr.isEmpty] at h <;> simp [groupCount]
+
+/-- the induction hypothesis of the descent: all functions at fuel `f` -/
+structure Desc16 (re : Bytes) (isAlnum : Char → Bool) (f : Nat) : Prop where
+  re_ : ∀ st ix d, OkP (Inv st ix) (parseRe isAlnum f re st ix d)
+  alt_ : ∀ st ix d, OkP (InvL st ix) (reAltLoop isAlnum f re st ix d)
+  branch_ : ∀ st ix d, OkP (Inv st ix) (parseBranch isAlnum f re st ix d)
+  bloop_ : ∀ st ix d, OkP (InvL st ix) (branchLoop isAlnum f re st ix d)
+  piece_ : ∀ st ix d, OkP (Inv st ix) (parsePiece isAlnum f re st ix d)
+  atom_ : ∀ st ix d, OkP (Inv st ix) (parseAtom isAlnum f re st ix d)
+  group_ : ∀ st ix d, OkP (Inv st ix) (parseGroup isAlnum f re st ix d)
+  flags_ : ∀ st ix d, OkP (Inv st ix) (parseFlags isAlnum f re st ix d)
+  cond_ : ∀ st ix d, OkP (Inv st ix) (parseConditional isAlnum f re st ix d)
+
+section steps
+variable {re : Bytes} {isAlnum : Char → Bool}
+
+theorem step16_parseRe {f : Nat} (h : Desc16 re isAlnum f) (st : PState) (ix d : Nat) :
+    OkP (Inv st ix) (parseRe isAlnum (f + 1) re st ix d) := by
+  unfold parseRe
+  refine OkP.bind (h.branch_ st ix d) (fun r hr => ?_)
+  obtain ⟨ix1, child, st1⟩ := r
+  obtain ⟨h1, h2, h3⟩ := hr
+  try simp only at h1 h2 h3 ⊢
+  refine OkP.bind (okP_optWs re _ ix1) (fun ix2 h4 => ?_)
+  refine OkP.bind OkP.trivial (fun _ _ => ?_)
+  refine OkP.ite (fun _ => ?_) (fun _ => ?_)
+  · refine OkP.bind (h.alt_ st1 ix2 d) (fun r hr => ?_)
+    obtain ⟨ix3, rest, st3⟩ := r
+    obtain ⟨h5, h6, h7⟩ := hr
+    try simp only at h5 h6 h7 ⊢
+    refine ⟨by simp only; omega, ?_, ?_⟩
+    · simp only [groupCount, groupCountList]; omega
+    · simp only [groupCount, groupCountList]; exact h3.trans h7
+  · try simp only
+    refine OkP.ite (fun _ => trivial) (fun _ => ?_)
+    exact ⟨by simp only; omega, by simp only; omega, h3⟩
+
+theorem step16_reAltLoop {f : Nat} (h : Desc16 re isAlnum f) (st : PState) (ix d : Nat) :
+    OkP (InvL st ix) (reAltLoop isAlnum (f + 1) re st ix d) := by
+  unfold reAltLoop
+  refine OkP.bind OkP.trivial (fun _ _ => ?_)
+  refine OkP.ite (fun _ => ?_) (fun _ => ⟨Nat.le_refl _, by simp [groupCountList], by
+    simp only [groupCountList]; exact Thr.refl _ _⟩)
+  refine OkP.bind (h.branch_ st (ix + 1) d) (fun r hr => ?_)
+  obtain ⟨ix1, child, st1⟩ := r
+  obtain ⟨h1, h2, h3⟩ := hr
+  try simp only at h1 h2 h3 ⊢
+  refine OkP.bind (okP_optWs re _ ix1) (fun ix2 h4 => ?_)
+  refine OkP.bind (h.alt_ st1 ix2 d) (fun r hr => ?_)
+  obtain ⟨ix3, rest, st3⟩ := r
+  obtain ⟨h5, h6, h7⟩ := hr
+  try simp only at h5 h6 h7 ⊢
+  refine ⟨by simp only; omega, ?_, ?_⟩
+  · simp only [groupCountList]; omega
+  · simp only [groupCountList]; exact h3.trans h7
+
+theorem step16_parseBranch {f : Nat} (h : Desc16 re isAlnum f) (st : PState) (ix d : Nat) :
+    OkP (Inv st ix) (parseBranch isAlnum (f + 1) re st ix d) := by
+  unfold parseBranch
+  refine OkP.bind (h.bloop_ st ix d) (fun r hr => ?_)
+  obtain ⟨ix1, children, st1⟩ := r
+  obtain ⟨h1, h2, h3⟩ := hr
+  try simp only at h1 h2 h3 ⊢
+  match children, h2, h3 with
+  | [], _, h3 => exact ⟨h1, by simp [groupCount], by simpa [groupCount, groupCountList] using h3⟩
+  | [c], h2, h3 =>
+    simp only [groupCountList, Nat.add_zero] at h2 h3
+    exact ⟨h1, h2, h3⟩
+  | c1 :: c2 :: cs, h2, h3 => exact ⟨h1, by simpa only [groupCount] using h2, by simpa only [groupCount] using h3⟩
+
+theorem step16_branchLoop {f : Nat} (h : Desc16 re isAlnum f) (st : PState) (ix d : Nat) :
+    OkP (InvL st ix) (branchLoop isAlnum (f + 1) re st ix d) := by
+  unfold branchLoop
+  refine OkP.ite (fun _ => ?_) (fun _ => ⟨Nat.le_refl _, by simp [groupCountList], by
+    simp only [groupCountList]; exact Thr.refl _ _⟩)
+  refine OkP.bind (h.piece_ st ix d) (fun r hr => ?_)
+  obtain ⟨next, child, st1⟩ := r
+  obtain ⟨h1, h2, h3⟩ := hr
+  try simp only at h1 h2 h3 ⊢
+  refine OkP.ite (fun hnx => ?_) (fun hnx => ?_)
+  · -- the piece is dropped: it consumed nothing, so it holds no group
+    have hnx' : next = ix := by simpa using hnx
+    have hz : groupCount child = 0 := by
+      rcases Nat.eq_zero_or_pos (groupCount child) with hz | hp
+      · exact hz
+      · have := h2 hp; omega
+    rw [hz] at h3
+    exact ⟨Nat.le_refl _, by simp [groupCountList], by simpa only [groupCountList] using h3⟩
+  refine OkP.bind (h.bloop_ st1 next d) (fun r hr => ?_)
+  obtain ⟨ix3, rest, st3⟩ := r
+  obtain ⟨h5, h6, h7⟩ := hr
+  try simp only at h5 h6 h7 ⊢
+  have hcount : groupCountList (if child.isEmpty = true then rest else child :: rest) =
+      groupCount child + groupCountList rest := by
+    split
+    · rename_i he; rw [groupCount_of_isEmpty he]; omega
+    · simp only [groupCountList]
+  refine ⟨by simp only; omega, ?_, ?_⟩
+  · simp only; rw [hcount]; omega
+  · simp only; rw [hcount]; exact h3.trans h7
+
+theorem step16_parsePiece {f : Nat} (h : Desc16 re isAlnum f) (st : PState) (ix d : Nat) :
+    OkP (Inv st ix) (parsePiece isAlnum (f + 1) re st ix d) := by
+  unfold parsePiece
+  refine OkP.bind (h.atom_ st ix d) (fun r hr => ?_)
+  obtain ⟨ix1, child, st1⟩ := r
+  try simp only at hr ⊢
+  refine OkP.bind (okP_optWs re _ ix1) (fun ix2 h4 => ?_)
+  refine OkP.ite (fun hlt => ?_) (fun _ => hr.reshape h4 rfl rfl rfl)
+  refine OkP.bind OkP.trivial (fun b _ => ?_)
+  refine OkP.bind (P := fun q => ∀ lo hi i, q = some (lo, hi, i) → ix2 ≤ i) ?_ (fun q hq => ?_)
+  · have q0 : ∀ lo hi, OkP (fun q => ∀ lo hi i, q = some (lo, hi, i) → ix2 ≤ i)
+        (pure (some (lo, hi, ix2)) : Res (Option (Nat × Nat × Nat))) := by
+      intro lo hi lo' hi' i hi2
+      cases hi2
+      exact Nat.le_refl _
+    refine OkP.ite (fun _ => q0 _ _) (fun _ => ?_)
+    refine OkP.ite (fun _ => q0 _ _) (fun _ => ?_)
+    refine OkP.ite (fun _ => q0 _ _) (fun _ => ?_)
+    refine OkP.ite (fun _ => ?_) (fun _ => by intro lo hi i hi2; cases hi2)
+    have hrep := okP_parseRepeat re st1.flags ix2
+    cases hres : parseRepeat re st1.flags ix2 with
+    | ok r =>
+      rw [hres] at hrep
+      obtain ⟨next, lo, hi⟩ := r
+      simp only [OkP_ok] at hrep
+      simp only
+      refine OkP.ite (fun _ => trivial) (fun _ => ?_)
+      intro lo' hi' i hi2
+      cases hi2
+      omega
+    | err k p => intro lo hi i hi2; cases hi2
+    | cerr => intro lo hi i hi2; cases hi2
+    | panic s => trivial
+    | outOfFuel => trivial
+  · cases q with
+    | none => exact hr.reshape h4 rfl rfl rfl
+    | some p =>
+      obtain ⟨lo, hi, i⟩ := p
+      have hq1 := hq _ _ _ rfl
+      simp only
+      refine OkP.ite (fun _ => trivial) (fun _ => ?_)
+      refine OkP.bind (okP_optWs re _ (i + 1)) (fun ix3 h6 => ?_)
+      have hle4 : ix3 ≤
+          (if (decide (ix3 < re.size) && re[ix3]? == some (ch '?')) = true then ix3 + 1 else ix3) := by
+        split <;> omega
+      generalize (if (decide (ix3 < re.size) && re[ix3]? == some (ch '?')) = true then ix3 + 1 else ix3)
+        = ix4 at hle4 ⊢
+      refine OkP.ite (fun _ => ?_) (fun _ => ?_)
+      · exact hr.reshape (by omega) (by simp only [groupCount]) rfl rfl
+      · exact hr.reshape (by omega) (by simp only [groupCount]) rfl rfl
+
+theorem step16_parseAtom {f : Nat} (h : Desc16 re isAlnum f) (st : PState) (ix d : Nat) :
+    OkP (Inv st ix) (parseAtom isAlnum (f + 1) re st ix d) := by
+  unfold parseAtom
+  refine OkP.bind (okP_optWs re _ ix) (fun ix1 h1 => ?_)
+  have leaf : ∀ (ix' : Nat) (e : Expr), ix1 ≤ ix' → groupCount e = 0 →
+      OkP (Inv st ix) (.ok (ix', e, st)) :=
+    fun ix' e hle he => Leaf.inv ⟨by simp only; omega, he, rfl, rfl⟩
+  refine OkP.ite (fun _ => leaf _ _ (Nat.le_refl _) (by simp [groupCount])) (fun _ => ?_)
+  refine OkP.bind OkP.trivial (fun b _ => ?_)
+  refine OkP.ite (fun _ => leaf _ _ (by omega) (by simp [groupCount])) (fun _ => ?_)
+  refine OkP.ite (fun _ => leaf _ _ (by omega) (by simp [groupCount])) (fun _ => ?_)
+  refine OkP.ite (fun _ => leaf _ _ (by omega) (by simp [groupCount])) (fun _ => ?_)
+  refine OkP.ite (fun _ => (h.group_ st ix1 d).mono fun r hr => hr.mono h1) (fun _ => ?_)
+  refine OkP.ite (fun _ => (okP_parseEscape isAlnum re st ix1 false).mono fun r hr =>
+    (hr.mono h1).inv) (fun _ => ?_)
+  refine OkP.ite (fun _ => leaf _ _ (Nat.le_refl _) (by simp [groupCount])) (fun _ => ?_)
+  refine OkP.ite (fun _ => (okP_parseClass isAlnum re st ix1).mono fun r hr =>
+    (hr.mono h1).inv) (fun _ => ?_)
+  refine OkP.bind OkP.trivial (fun s _ => ?_)
+  exact leaf _ _ (by omega) (by simp [groupCount])
+
+theorem inv_of_body {st : PState} {ix n : Nat} {r : Nat × Expr × PState} (hlt : ix < r.1)
+    (he : groupCount r.2.1 = n)
+    (hthr : Thr st.currGroup st.namedGroups r.2.2.currGroup r.2.2.namedGroups n) : Inv st ix r :=
+  ⟨Nat.le_of_lt hlt, fun _ => hlt, he ▸ hthr⟩
+
+/-- what the common tail of `parse_group` (`parse_re`, `check_for_close_paren`, the node) returns -/
+def BodyOut (ix : Nat) (la : Option Look) (skip : Nat) (st' : PState) (r : Nat × Expr × PState) :
+    Prop :=
+  ix < r.1 ∧ ∃ child, r.2.1 = (match la with
+      | some la => Expr.look child la
+      | none => if skip == 2 then Expr.atomic child else Expr.group 0 child) ∧
+    Thr st'.currGroup st'.namedGroups r.2.2.currGroup r.2.2.namedGroups (groupCount child)
+
+theorem step16_parseGroup {f : Nat} (h : Desc16 re isAlnum f) (st : PState) (ix d : Nat) :
+    OkP (Inv st ix) (parseGroup isAlnum (f + 1) re st ix d) := by
+  unfold parseGroup
+  refine OkP.ite (fun _ => trivial) (fun hd => ?_)
+  refine OkP.bind (okP_optWs re _ (ix + 1)) (fun ix1 h1 => ?_)
+  refine OkP.bind OkP.trivial (fun _ _ => ?_)
+  extract_lets body st2
+  have hbody : ∀ la skip st', OkP (BodyOut ix la skip st') (body la skip st') := by
+    intro la skip st'
+    simp only [body]
+    refine OkP.bind (h.re_ st' (ix1 + skip) (d + 1)) (fun r hr => ?_)
+    obtain ⟨ix2, child, st3⟩ := r
+    obtain ⟨h2, _, h4⟩ := hr
+    try simp only at h2 h4 ⊢
+    refine OkP.bind (okP_checkForCloseParen re _ ix2) (fun ix3 h5 => ?_)
+    cases la with
+    | some la => exact ⟨by simp only; omega, child, rfl, h4⟩
+    | none =>
+      simp only
+      refine OkP.ite (fun hs => ?_) (fun hs => ?_)
+      · exact ⟨by simp only; omega, child, by simp [hs], h4⟩
+      · exact ⟨by simp only; omega, child, by simp [hs], h4⟩
+  clear_value body
+  -- a named group: `curr_group += 1`, then `named_groups.insert(name, curr_group)`
+  have named : ∀ (nm : Name) (skip : Nat), 2 < skip →
+      OkP (Inv st ix) (body none skip
+        { st2 with namedGroups := namedInsert st2.namedGroups nm st2.currGroup }) := by
+    intro nm skip hskip
+    refine (hbody none skip _).mono fun r hr => ?_
+    obtain ⟨hlt, child, he, hthr⟩ := hr
+    have hne : (skip == 2) = false := by simp; omega
+    simp only [hne] at he
+    refine inv_of_body hlt (n := groupCount child + 1) (by rw [he]; simp [groupCount]) ?_
+    exact Thr.named nm hthr
+  cases hlook : lookOf re ix1 with
+  | some p =>
+    obtain ⟨la, skip⟩ := p
+    simp only
+    refine (hbody (some la) skip st).mono fun r hr => ?_
+    obtain ⟨hlt, child, he, hthr⟩ := hr
+    exact inv_of_body hlt (by rw [he]; simp [groupCount]) hthr
+  | none =>
+    simp only
+    -- (?<name>
+    refine OkP.ite (fun _ => ?_) (fun _ => ?_)
+    · refine OkP.bind OkP.trivial (fun _ _ => ?_)
+      refine OkP.bind (okP_parseId isAlnum re _ _ _ _) (fun r hr => ?_)
+      cases r with
+      | none => trivial
+      | some p =>
+        obtain ⟨a, b, skip⟩ := p
+        have := hr _ _ _ rfl
+        simp only [List.length_cons, List.length_nil] at this
+        simp only
+        exact named _ _ (by omega)
+    -- (?P<name>
+    refine OkP.ite (fun _ => ?_) (fun _ => ?_)
+    · refine OkP.bind OkP.trivial (fun _ _ => ?_)
+      refine OkP.bind (okP_parseId isAlnum re _ _ _ _) (fun r hr => ?_)
+      cases r with
+      | none => trivial
+      | some p =>
+        obtain ⟨a, b, skip⟩ := p
+        have := hr _ _ _ rfl
+        simp only [List.length_cons, List.length_nil] at this
+        simp only
+        exact named _ _ (by omega)
+    -- (?P=name)
+    refine OkP.ite (fun _ => ?_) (fun _ => ?_)
+    · exact (okP_parseNamedBackref ..).mono fun r hr => (hr.mono (by omega)).inv
+    -- (?>
+    refine OkP.ite (fun _ => ?_) (fun _ => ?_)
+    · refine (hbody none 2 st).mono fun r hr => ?_
+      obtain ⟨hlt, child, he, hthr⟩ := hr
+      exact inv_of_body hlt (by rw [he]; simp [groupCount]) hthr
+    -- (?(
+    refine OkP.ite (fun _ => ?_) (fun _ => ?_)
+    · exact (h.cond_ st _ (d + 1)).mono fun r hr => hr.mono (by omega)
+    -- (?P>name)
+    refine OkP.ite (fun _ => ?_) (fun _ => ?_)
+    · exact (okP_parseNamedBackref ..).mono fun r hr => (hr.mono (by omega)).inv
+    -- (?flags
+    refine OkP.ite (fun _ => ?_) (fun _ => ?_)
+    · exact (h.flags_ st ix1 (d + 1)).mono fun r hr => hr.mono (by omega)
+    -- a plain capture group: `curr_group += 1`
+    · refine (hbody none 0 st2).mono fun r hr => ?_
+      obtain ⟨hlt, child, he, hthr⟩ := hr
+      have hne : ((0 : Nat) == 2) = false := by decide
+      simp only [hne] at he
+      refine inv_of_body hlt (n := groupCount child + 1) (by rw [he]; simp [groupCount]) ?_
+      exact Thr.group hthr
+
+theorem step16_parseFlags {f : Nat} (h : Desc16 re isAlnum f) (st : PState) (ix d : Nat) :
+    OkP (Inv st ix) (parseFlags isAlnum (f + 1) re st ix d) := by
+  unfold parseFlags
+  refine OkP.bind (okP_flagsLoop re (ix + 1) (re.size + 2) st.flags (ix + 1) false) (fun r hr => ?_)
+  obtain ⟨e, fl⟩ := r
+  try simp only at hr ⊢
+  cases e with
+  | close i =>
+    simp only at hr ⊢
+    exact Leaf.inv ⟨by simp only; omega, by simp [groupCount], rfl, rfl⟩
+  | colon i =>
+    simp only at hr ⊢
+    refine OkP.bind (h.re_ _ (i + 1) d) (fun r hr2 => ?_)
+    obtain ⟨ix2, child, st2⟩ := r
+    try simp only at hr2 ⊢
+    refine OkP.ite (fun _ => trivial) (fun _ => ?_)
+    refine OkP.bind OkP.trivial (fun b _ => ?_)
+    refine OkP.ite (fun _ => trivial) (fun _ => ?_)
+    have hr3 : Inv st (i + 1) (ix2, child, st2) := hr2
+    exact (hr3.reshape (Nat.le_succ _) rfl rfl rfl).mono (by omega)
+
+theorem step16_parseConditional {f : Nat} (h : Desc16 re isAlnum f) (st : PState) (ix d : Nat) :
+    OkP (Inv st ix) (parseConditional isAlnum (f + 1) re st ix d) := by
+  unfold parseConditional
+  refine OkP.ite (fun _ => trivial) (fun _ => ?_)
+  refine OkP.bind OkP.trivial (fun b _ => ?_)
+  refine OkP.bind (P := Inv st ix) ?_ (fun r hr => ?_)
+  · refine OkP.ite (fun _ => ?_) (fun _ => ?_)
+    · exact (okP_parseNumberedBackref ..).mono fun r hr => hr.inv
+    refine OkP.ite (fun _ => ?_) (fun _ => ?_)
+    · exact (okP_parseNamedBackref ..).mono fun r hr => hr.inv
+    refine OkP.ite (fun _ => ?_) (fun _ => ?_)
+    · exact (okP_parseNamedBackref ..).mono fun r hr => hr.inv
+    · exact h.re_ st ix d
+  obtain ⟨next, condition, st1⟩ := r
+  obtain ⟨h1, _, h3⟩ := hr
+  try simp only at h1 h3 ⊢
+  refine OkP.bind (okP_checkForCloseParen re _ next) (fun next2 h4 => ?_)
+  refine OkP.bind (h.re_ st1 next2 d) (fun r hr => ?_)
+  obtain ⟨end_, child, st2⟩ := r
+  obtain ⟨h5, h6, h7⟩ := hr
+  try simp only at h5 h6 h7 ⊢
+  refine OkP.ite (fun heq => ?_) (fun _ => ?_)
+  · -- `(?(1))`: the body is dropped: it consumed nothing, so it holds no group
+    have heq' : end_ = next2 := by simpa using heq
+    have hz : groupCount child = 0 := by
+      rcases Nat.eq_zero_or_pos (groupCount child) with hz | hp
+      · exact hz
+      · have := h6 hp; omega
+    rw [hz] at h7
+    split
+    · refine OkP.bind (okP_checkForCloseParen re _ end_) (fun after h8 => ?_)
+      refine inv_of_body (n := 0) (by simp only; omega) (by simp [groupCount]) ?_
+      simp only [groupCount] at h3
+      exact h3.trans h7
+    · trivial
+  · refine OkP.bind (P := fun br : Expr × Expr =>
+        groupCount br.1 + groupCount br.2 = groupCount child ∧
+        (st2.lastReHadAlt = false → br.1 = child)) ?_ (fun br hbr => ?_)
+    · split
+      · -- `Expr::Alt(alternatives) if has_else`
+        rename_i alternatives helse
+        cases alternatives with
+        | nil => trivial
+        | cons t rest =>
+          simp only
+          split
+          · rename_i e
+            exact ⟨by simp [groupCount, groupCountList], by simp [helse]⟩
+          · exact ⟨by simp [groupCount, groupCountList], by simp [helse]⟩
+      · exact ⟨by simp [groupCount], fun _ => rfl⟩
+    · have hbr1 := hbr.1
+      refine OkP.bind (okP_checkForCloseParen re _ end_) (fun after h8 => ?_)
+      refine OkP.ite (fun hc => ?_) (fun _ => ?_)
+      · -- no else and an empty "then": the whole conditional is its condition
+        have hc' := (Bool.and_eq_true _ _).mp hc
+        have hne : st2.lastReHadAlt = false := by simpa using hc'.1
+        have hz : groupCount child = 0 := by
+          rw [← hbr.2 hne]; exact groupCount_of_isEmpty hc'.2
+        rw [hz] at h7
+        refine inv_of_body (n := groupCount condition + 0) (by simp only; omega) ?_ (h3.trans h7)
+        simp only
+        split
+        · simp [groupCount]
+        · rfl
+      · refine inv_of_body (n := groupCount condition + groupCount child) (by simp only; omega) ?_ ?_
+        · simp only [groupCount]
+          split
+          · simp only [groupCount]; omega
+          · omega
+        · exact h3.trans h7
+
+end steps
+
+/-- **the invariant of the recursive descent**, for every fuel, every byte string, every state,
+    index and depth -/
+theorem desc16 (re : Bytes) (isAlnum : Char → Bool) : ∀ f, Desc16 re isAlnum f := by
+  intro f
+  induction f with
+  | zero =>
+    constructor <;> intro st ix d
+    · unfold parseRe; trivial
+    · unfold reAltLoop; trivial
+    · unfold parseBranch; trivial
+    · unfold branchLoop; trivial
+    · unfold parsePiece; trivial
+    · unfold parseAtom; trivial
+    · unfold parseGroup; trivial
+    · unfold parseFlags; trivial
+    · unfold parseConditional; trivial
+  | succ f ih =>
+    exact {
+      re_ := step16_parseRe ih
+      alt_ := step16_reAltLoop ih
+      branch_ := step16_parseBranch ih
+      bloop_ := step16_branchLoop ih
+      piece_ := step16_parsePiece ih
+      atom_ := step16_parseAtom ih
+      group_ := step16_parseGroup ih
+      flags_ := step16_parseFlags ih
+      cond_ := step16_parseConditional ih }
+
+/-! ## What the table holds, in terms of the groups' names -/
+
+theorem mem_namedInsert {m : Names} {n0 nm : Name} {v k : Nat} :
+    (nm, k) ∈ namedInsert m n0 v ↔ (nm = n0 ∧ k = v) ∨ ((nm, k) ∈ m ∧ nm ≠ n0) := by
+  simp only [namedInsert, List.mem_cons, Prod.mk.injEq, List.mem_filter, bne_iff_ne, ne_eq]
+
+/-- **the table, entry by entry**: `(name, k)` is in the table after the groups `base+1, …` have
+    been opened iff group `k` is one of them, carries that name, and no later group does — or the
+    entry was there before and none of the new groups carries that name -/
+theorem mem_bindNames (ann : List (Option Name)) : ∀ (m : Names) (base : Nat) (nm : Name) (k : Nat),
+    (nm, k) ∈ bindNames m base ann ↔
+      (base < k ∧ ann[k - base - 1]? = some (some nm) ∧ some nm ∉ ann.drop (k - base)) ∨
+      ((nm, k) ∈ m ∧ some nm ∉ ann) := by
+  induction ann with
+  | nil => intro m base nm k; simp [bindNames]
+  | cons a as ih =>
+    intro m base nm k
+    have hdrop : base + 1 < k → (a :: as).drop (k - base) = as.drop (k - (base + 1)) := by
+      intro hk
+      rw [show k - base = (k - (base + 1)) + 1 by omega, List.drop_succ_cons]
+    have hget : base + 1 < k → (a :: as)[k - base - 1]? = as[k - (base + 1) - 1]? := by
+      intro hk
+      rw [show k - base - 1 = (k - (base + 1) - 1) + 1 by omega, List.getElem?_cons_succ]
+    cases a with
+    | none =>
+      simp only [bindNames]
+      rw [ih]
+      constructor
+      · rintro (⟨h1, h2, h3⟩ | ⟨h1, h2⟩)
+        · exact Or.inl ⟨by omega, by rw [hget h1]; exact h2, by rw [hdrop h1]; exact h3⟩
+        · exact Or.inr ⟨h1, by simpa using h2⟩
+      · rintro (⟨h1, h2, h3⟩ | ⟨h1, h2⟩)
+        · by_cases hk : base + 1 < k
+          · exact Or.inl ⟨hk, by rw [← hget hk]; exact h2, by rw [← hdrop hk]; exact h3⟩
+          · have : k - base - 1 = 0 := by omega
+            rw [this] at h2; simp at h2
+        · exact Or.inr ⟨h1, by simpa using h2⟩
+    | some n0 =>
+      simp only [bindNames]
+      rw [ih, mem_namedInsert]
+      constructor
+      · rintro (⟨h1, h2, h3⟩ | ⟨(⟨h1, h2⟩ | ⟨h1, h2⟩), h3⟩)
+        · exact Or.inl ⟨by omega, by rw [hget h1]; exact h2, by rw [hdrop h1]; exact h3⟩
+        · subst h1; subst h2
+          refine Or.inl ⟨by omega, by simp, ?_⟩
+          rw [show base + 1 - base = 1 by omega]
+          simpa using h3
+        · refine Or.inr ⟨h1, ?_⟩
+          simp only [List.mem_cons, Option.some.injEq, not_or]
+          exact ⟨h2, h3⟩
+      · rintro (⟨h1, h2, h3⟩ | ⟨h1, h2⟩)
+        · by_cases hk : base + 1 < k
+          · exact Or.inl ⟨hk, by rw [← hget hk]; exact h2, by rw [← hdrop hk]; exact h3⟩
+          · have hk1 : k = base + 1 := by omega
+            subst hk1
+            rw [show base + 1 - base - 1 = 0 by omega] at h2
+            rw [show base + 1 - base = 1 by omega] at h3
+            simp only [List.getElem?_cons_zero, Option.some.injEq] at h2
+            subst h2
+            exact Or.inr ⟨Or.inl ⟨rfl, rfl⟩, by simpa using h3⟩
+        · simp only [List.mem_cons, Option.some.injEq, not_or] at h2
+          exact Or.inr ⟨Or.inr ⟨h1, h2.1⟩, h2.2⟩
+
+/-- the table is an association list: no name twice -/
+theorem namedInsert_nodup {m : Names} (h : (m.map (·.1)).Nodup) (nm : Name) (v : Nat) :
+    ((namedInsert m nm v).map (·.1)).Nodup := by
+  simp only [namedInsert, List.map_cons, List.nodup_cons, List.mem_map, List.mem_filter,
+    bne_iff_ne, ne_eq, not_exists, not_and]
+  refine ⟨fun e he => fun h2 => he.2 h2, ?_⟩
+  exact (List.Nodup.sublist (List.Sublist.map _ List.filter_sublist) h)
+
+theorem bindNames_nodup (ann : List (Option Name)) : ∀ (m : Names) (base : Nat),
+    (m.map (·.1)).Nodup → ((bindNames m base ann).map (·.1)).Nodup := by
+  induction ann with
+  | nil => intro m base h; exact h
+  | cons a as ih =>
+    intro m base h
+    cases a with
+    | none => exact ih m _ h
+    | some nm => exact ih _ _ (namedInsert_nodup h nm _)
+
+/-! ## Part 1 — the parser's group counter is the analyzer's numbering -/
+
+/-- **C16_descent**: the invariant of the recursive descent — for every byte string, fuel, state,
+    index and depth, each of the nine functions of the descent, when it returns `ok (ix', e, st')`,
+    has advanced `curr_group` by exactly the number of capture groups of `e`
+    (`st'.currGroup = st.currGroup + groupCount e`: look-arounds, atomic groups, flag groups and
+    conditionals do not count), has extended `named_groups` by the names of those groups bound to
+    their numbers in opening (pre-)order, and has not moved left (and has moved right if `e` holds
+    a group — which is why the two places where the parser DROPS a parsed node, `next == ix` in
+    `parse_branch` and `end == next` in `parse_conditional`, lose no group) -/
+theorem C16_descent (re : Bytes) (isAlnum : Char → Bool) (f : Nat) : Desc16 re isAlnum f :=
+  desc16 re isAlnum f
+
+/-- `parse_re` in plain words -/
+theorem C16_parseRe_counter (isAlnum : Char → Bool) (re : Bytes) (f : Nat) (st st' : PState)
+    (ix d ix' : Nat) (e : Expr) (h : parseRe isAlnum f re st ix d = .ok (ix', e, st')) :
+    st'.currGroup = st.currGroup + groupCount e ∧
+    ∃ ann : List (Option Name), ann.length = groupCount e ∧
+      st'.namedGroups = bindNames st.namedGroups st.currGroup ann :=
+  (((desc16 re isAlnum f).re_ st ix d).of_eq h).2.2
+
+theorem parseBytes_ok {isAlnum : Char → Bool} {re : Bytes} {casei : Bool} {t : Tree}
+    (h : parseBytes isAlnum re casei = .ok t) :
+    ∃ ix st, parseRe isAlnum (descentFuel re.size) re { flags := { casei := casei } } 0 0 =
+        .ok (ix, t.expr, st) ∧ t.namedGroups = st.namedGroups ∧ t.backrefs = st.backrefs := by
+  unfold parseBytes at h
+  simp only at h
+  split at h
+  · rename_i ix e st heq
+    split at h
+    · cases h
+    · cases h
+      exact ⟨ix, st, heq, rfl, rfl⟩
+  all_goals cases h
+
+/-- **C16_parse_counter**: for every pattern that parses, the parser's final `curr_group` is the
+    number of capture groups of the tree — the number the analyzer's numbering (`renumber`,
+    `checkRefs`: `C16_renumber_count`, `C16_checkRefs_count`) ends at. (`Tree` does not keep the
+    counter, so the statement exhibits the final state of `parse_re`.) -/
+theorem C16_parse_counter (isAlnum : Char → Bool) (cs : List Char) (casei : Bool) (t : Tree)
+    (h : parseStr isAlnum cs casei = .ok t) :
+    ∃ ix st, parseRe isAlnum (descentFuel (bytesOf cs).size) (bytesOf cs)
+        { flags := { casei := casei } } 0 0 = .ok (ix, t.expr, st) ∧
+      t.namedGroups = st.namedGroups ∧ st.currGroup = groupCount t.expr ∧
+      (renumber t.expr 1).2 = st.currGroup + 1 := by
+  obtain ⟨ix, st, hre, hn, _⟩ := parseBytes_ok h
+  have := (C16_parseRe_counter isAlnum _ _ _ _ _ _ _ _ hre).1
+  simp only [Nat.zero_add] at this
+  exact ⟨ix, st, hre, hn, this, by rw [C16_renumber_count, this]; omega⟩
+
+/-- **C16_names_at_index**: for every pattern that parses there is the list `ann` of the names of
+    its capture groups in opening-parenthesis order (`ann[i]` = the name, if any, written at the
+    `(i+1)`-th capture group), one entry per group of the tree, and the name table is exactly what
+    binding each name to its group's number yields (`bindNames [] 0 ann`: a later group with the
+    same name takes the name over, as `HashMap::insert` does). -/
+theorem C16_names_at_index (isAlnum : Char → Bool) (cs : List Char) (casei : Bool) (t : Tree)
+    (h : parseStr isAlnum cs casei = .ok t) :
+    ∃ ann : List (Option Name), ann.length = groupCount t.expr ∧
+      t.namedGroups = bindNames [] 0 ann := by
+  obtain ⟨ix, st, hre, hn, _⟩ := parseBytes_ok h
+  obtain ⟨_, ann, hl, hb⟩ := C16_parseRe_counter isAlnum _ _ _ _ _ _ _ _ hre
+  exact ⟨ann, hl, by rw [hn, hb]⟩
+
+/-- the table `bindNames [] 0 ann`, entry by entry: `(name, k)` is an entry iff `1 ≤ k`, the `k`-th
+    group carries that name and no later group does -/
+theorem mem_bindNames_top (ann : List (Option Name)) (nm : Name) (k : Nat) :
+    (nm, k) ∈ bindNames [] 0 ann ↔
+      0 < k ∧ ann[k - 1]? = some (some nm) ∧ some nm ∉ ann.drop k := by
+  rw [mem_bindNames]
+  simp
+
+/-- **C16_names_range**: every entry `(name, k)` of the table has `1 ≤ k ≤ number of capture
+    groups`: `names[i] = Some(name)` in `capture_names` never indexes out of bounds, and `k` is the
+    number `renumber _ 1` gives to a group of the tree -/
+theorem C16_names_range (isAlnum : Char → Bool) (cs : List Char) (casei : Bool) (t : Tree)
+    (h : parseStr isAlnum cs casei = .ok t) (nm : Name) (k : Nat) (hk : (nm, k) ∈ t.namedGroups) :
+    1 ≤ k ∧ k ≤ groupCount t.expr := by
+  obtain ⟨ann, hl, hb⟩ := C16_names_at_index isAlnum cs casei t h
+  rw [hb, mem_bindNames_top] at hk
+  obtain ⟨h1, h2, _⟩ := hk
+  have : k - 1 < ann.length := by
+    rcases Nat.lt_or_ge (k - 1) ann.length with h | h
+    · exact h
+    · rw [List.getElem?_eq_none h] at h2; cases h2
+  omega
+
+/-- **C16_names_distinct**: the table is a map in both directions — no name has two entries (a name
+    written at two groups belongs to the LATER one only), and no group number has two names -/
+theorem C16_names_distinct (isAlnum : Char → Bool) (cs : List Char) (casei : Bool) (t : Tree)
+    (h : parseStr isAlnum cs casei = .ok t) :
+    (t.namedGroups.map (·.1)).Nodup ∧
+    (∀ nm k1 k2, (nm, k1) ∈ t.namedGroups → (nm, k2) ∈ t.namedGroups → k1 = k2) ∧
+    (∀ n1 n2 k, (n1, k) ∈ t.namedGroups → (n2, k) ∈ t.namedGroups → n1 = n2) := by
+  obtain ⟨ann, hl, hb⟩ := C16_names_at_index isAlnum cs casei t h
+  rw [hb]
+  refine ⟨bindNames_nodup ann [] 0 (by simp), ?_, ?_⟩
+  · have key : ∀ nm k1 k2, k1 < k2 → (nm, k1) ∈ bindNames [] 0 ann → (nm, k2) ∈ bindNames [] 0 ann →
+        False := by
+      intro nm k1 k2 hlt h1 h2
+      rw [mem_bindNames_top] at h1 h2
+      apply h1.2.2
+      have hmem := List.mem_of_getElem? h2.2.1
+      have h3 : (ann.drop k1)[k2 - 1 - k1]? = some (some nm) := by
+        rw [List.getElem?_drop, show k1 + (k2 - 1 - k1) = k2 - 1 by omega]; exact h2.2.1
+      exact List.mem_of_getElem? h3
+    intro nm k1 k2 h1 h2
+    rcases Nat.lt_trichotomy k1 k2 with hlt | heq | hgt
+    · exact (key nm k1 k2 hlt h1 h2).elim
+    · exact heq
+    · exact (key nm k2 k1 hgt h2 h1).elim
+  · intro n1 n2 k h1 h2
+    rw [mem_bindNames_top] at h1 h2
+    have := h1.2.1.symm.trans h2.2.1
+    simpa using this
+
+/-! ### the numbers `renumber` hands out, in pre-order -/
+
+mutual
+/-- the numbers of the `.group` nodes of a tree, in pre-order (opening-parenthesis order; the
+    order of `renumber`: condition, then-branch, else-branch for a conditional) -/
+def groupNums : Expr → List Nat
+  | .group g e => g :: groupNums e
+  | .concat es => groupNumsList es
+  | .alt es => groupNumsList es
+  | .look e _ => groupNums e
+  | .repeat e _ _ _ => groupNums e
+  | .atomic e => groupNums e
+  | .cond c y f => groupNums c ++ (groupNums y ++ groupNums f)
+  | _ => []
+def groupNumsList : List Expr → List Nat
+  | [] => []
+  | e :: es => groupNums e ++ groupNumsList es
+end
+
+mutual
+theorem groupNums_renumber (e : Expr) (n : Nat) :
+    groupNums (renumber e n).1 = List.range' n (groupCount e) := by
+  cases e with
+  | group g c =>
+    simp only [renumber, groupNums, groupCount]
+    rw [groupNums_renumber c (n + 1), List.range'_succ]
+  | concat es => simp only [renumber, groupNums, groupCount]; exact groupNumsList_renumber es n
+  | alt es => simp only [renumber, groupNums, groupCount]; exact groupNumsList_renumber es n
+  | look c la => simp only [renumber, groupNums, groupCount]; exact groupNums_renumber c n
+  | «repeat» c lo hi g => simp only [renumber, groupNums, groupCount]; exact groupNums_renumber c n
+  | atomic c => simp only [renumber, groupNums, groupCount]; exact groupNums_renumber c n
+  | cond c y f =>
+    simp only [renumber, groupNums, groupCount]
+    rw [groupNums_renumber c, groupNums_renumber y, groupNums_renumber f, renumber_snd y,
+      renumber_snd c, List.range'_append_1, List.range'_append_1, Nat.add_assoc]
+  | empty | any _ | assertion _ | literal _ _ | delegate _ _ _ | backref _ | keepOut | contPrev
+  | backrefExists _ | subroutine _ => simp [renumber, groupNums, groupCount]
+theorem groupNumsList_renumber (es : List Expr) (n : Nat) :
+    groupNumsList (renumberList es n).1 = List.range' n (groupCountList es) := by
+  cases es with
+  | nil => simp [renumberList, groupNumsList, groupCountList]
+  | cons e es =>
+    simp only [renumberList, groupNumsList, groupCountList]
+    rw [groupNums_renumber e, groupNumsList_renumber es, renumber_snd e, List.range'_append_1]
+end
+
+/-- **C16_preorder**: the analyzer numbers the capture groups `n, n+1, …` in pre-order; with
+    `C16_names_at_index` (`ann[i]` is the name written at the `(i+1)`-th capture group in opening
+    order, bound to `i + 1`): in `(renumber t.expr 1).1` the `(i+1)`-th group in pre-order — the
+    one `ann[i]` belongs to — has number `i + 1` -/
+theorem C16_preorder (e : Expr) (n i : Nat) (h : i < groupCount e) :
+    (groupNums (renumber e n).1)[i]? = some (n + i) := by
+  rw [groupNums_renumber, List.getElem?_range' h]; simp
+
 end Fancy.Parse
